@@ -73,6 +73,10 @@ pub(crate) struct Circuit {
     success_count: usize,
     total_count: usize,
     slow_call_count: usize,
+    // Trial calls that completed successfully since the circuit became half-open.
+    // Kept separately from the window statistics so that half-open decisions do
+    // not depend on the window type or on window eviction.
+    half_open_successes: usize,
     // Time-based window tracking
     call_records: VecDeque<CallRecord>,
 }
@@ -100,6 +104,7 @@ impl Circuit {
             success_count: 0,
             total_count: 0,
             slow_call_count: 0,
+            half_open_successes: 0,
             call_records: VecDeque::new(),
         }
     }
@@ -247,11 +252,8 @@ impl Circuit {
 
         match self.state {
             CircuitState::HalfOpen => {
-                let success_count = match config.sliding_window_type {
-                    SlidingWindowType::CountBased => self.success_count,
-                    SlidingWindowType::TimeBased => self.time_based_stats().2,
-                };
-                if success_count >= config.permitted_calls_in_half_open {
+                self.half_open_successes += 1;
+                if self.half_open_successes >= config.permitted_calls_in_half_open {
                     self.transition_to(CircuitState::Closed, config);
                 }
             }
@@ -368,8 +370,9 @@ impl Circuit {
                 }
             }
             CircuitState::HalfOpen => {
-                let permitted =
-                    self.success_count + self.failure_count < config.permitted_calls_in_half_open;
+                // Any failure leaves half-open immediately, so the completed trial
+                // calls of this half-open period are exactly its successes.
+                let permitted = self.half_open_successes < config.permitted_calls_in_half_open;
                 if permitted {
                     config
                         .event_listeners
@@ -456,6 +459,7 @@ impl Circuit {
         self.failure_count = 0;
         self.total_count = 0;
         self.slow_call_count = 0;
+        self.half_open_successes = 0;
         self.call_records.clear();
     }
 
